@@ -334,6 +334,22 @@ def shrink(real, prog, ref_obs):
         if real.program(G.fmt_program(pre)) != real.program(G.fmt_program(G.reannotate(None, pre, 'strip'))):
             prog = pre
             break
+    def differs(pg):
+        a, z = real.program(G.fmt_program(pg)), real.program(G.fmt_program(G.reannotate(None, pg, 'strip')))
+        return a != z and z[0] == 'ok'      # the annotation-free program must stay well typed
+
+    # drop leading instructions / whole earlier pushes that the difference does not need (greedy, a few passes)
+    if differs(prog):
+        changed, passes = True, 0
+        while changed and passes < 4:
+            changed, passes = False, passes + 1
+            i = 0
+            while i < len(prog) - 1:
+                cand = prog[:i] + prog[i + 1:]
+                if differs(cand):
+                    prog, changed = cand, True
+                else:
+                    i += 1
     for site in annot_sites(prog, []):
         saved = site.pop('annots')
         if real.program(G.fmt_program(prog)) == real.program(G.fmt_program(G.reannotate(None, prog, 'strip'))):
